@@ -75,6 +75,23 @@ func buildStage(c *core.Ctx, pkg string, fn *ssa.Function) *Stage {
 				if g.InLoop {
 					g.Trip = tripCountOf(an, st.Instr.Block())
 				}
+				// reached on several paths of the parent with different contents of the variables: analysed from what
+				// the paths agree on
+				{
+					var snaps []*ir.State
+					for _, p2 := range an.AllPaths() {
+						for _, st2 := range p2.Events(ir.KGo) {
+							if st2.Instr == st.Instr && st2.Chain == st.Chain {
+								snaps = append(snaps, st2.Snap)
+							}
+						}
+					}
+					if len(snaps) > 1 {
+						cp := *st
+						cp.Snap = ir.JoinSnapshots(snaps)
+						st = &cp
+					}
+				}
 				gfn, gan := c.AnalyzeSpawnLoops(st)
 				if gfn == nil {
 					s.Problems = append(s.Problems, "go statement with unresolved target at "+c.W.Pos(st.Pos()))
